@@ -439,6 +439,7 @@ def _effective(r, p, rt):
                             n_checked += 1
                             r.fail("C12.effective", "%s:%s" % (m.key, norm(n)), "constructor derives `%s` from configurable `%s` before configuration is applied: later configuration of `%s` is ignored" % (tgt, rd[0], rd[0]), m.loc(n))
     r.ok("C12.effective", "all-rule-classes", "%d stores/derivations of configurable attributes inspected (%d idempotent yes/no normalisations accepted)" % (n_checked, n_norm[0]))
+    _normalised_use(r, p)
     # the accepted normalisers really are idempotent maps that leave other values alone
     for name in NORMALISERS:
         fi = p.function("vsg.vhdlFile.utils:" + name)
@@ -450,8 +451,91 @@ def _effective(r, p, rt):
             r.fail("C12.effective", fi.key, "normaliser is no longer an idempotent pass-through: in-place normalisation of configured options changes them", fi.loc())
 
 
+_DOMAIN = {"convert_boolean_to_yes_no": "str", "convert_yes_no_option_to_boolean": "bool"}
+
+
+def _use_context(x):
+    par = getattr(x, "_parent", None)
+    if isinstance(par, ast.Compare):
+        cs = [o.value for o in [par.left] + list(par.comparators) if isinstance(o, ast.Constant)]
+        if any(isinstance(c, str) for c in cs):
+            return "cmp-str"
+        if any(isinstance(c, bool) for c in cs):
+            return "truth"
+        return None
+    if isinstance(par, (ast.If, ast.While, ast.IfExp)) and par.test is x:
+        return "truth"
+    if isinstance(par, ast.BoolOp):
+        return "truth"
+    if isinstance(par, ast.UnaryOp) and isinstance(par.op, ast.Not):
+        return "truth"
+    return None
+
+
+def _normalised_use(r, p):
+    """A yes/no option is normalised in place (`self.x = convert_..(self.x)`) to one of two domains: the strings
+    'yes'/'no' or a bool.  (1) every use in the module agrees with the domain: a truthiness test of a 'yes'/'no'
+    string is true for 'no' as well, a comparison of a bool with 'yes' is always false - the configured value is
+    then not the value acted on; (2) nothing reads the raw option in region selection, which Rule.analyze runs
+    before _analyze, unless region selection normalises it first (the first analysis would see another type than
+    every later one)."""
+    sites = {}
+    for fi in p.functions.values():
+        if not fi.module.name.startswith("vsg.rules") and fi.module.name != "vsg.block_rule":
+            continue
+        for n in walk_function(fi.node):
+            if isinstance(n, ast.Assign) and len(n.targets) == 1 and isinstance(n.targets[0], ast.Attribute) and norm(n.targets[0].value) == "self" and isinstance(n.value, ast.Call) and len(n.value.args) == 1 and norm(n.value.args[0]) == norm(n.targets[0]):
+                fn = norm(n.value.func).split(".")[-1]
+                if fn in _DOMAIN:
+                    sites.setdefault((fi.module.name, n.targets[0].attr), []).append((fi, _DOMAIN[fn], n))
+    if len(sites) < 25:
+        raise AnalysisError("only %d in-place option normalisations found" % len(sites))
+    n_use = 0
+    for (mname, attr), lst in sorted(sites.items()):
+        doms = {d for _, d, _ in lst}
+        if len(doms) > 1:
+            r.fail("C12.effective", "%s:self.%s:domains" % (mname, attr), "option `%s` is normalised to a bool in one place and to 'yes'/'no' in another" % attr, lst[0][0].loc(lst[0][2]))
+            continue
+        dom = doms.pop()
+        norm_funcs = {fi.key: n.lineno for fi, _, n in lst}
+        for fi in p.functions.values():
+            if fi.module.name != mname or fi.name == "__init__":
+                continue
+            for x in walk_function(fi.node):
+                if not (isinstance(x, ast.Attribute) and isinstance(x.ctx, ast.Load) and x.attr == attr and norm(x.value) == "self"):
+                    continue
+                ctxu = _use_context(x)
+                if ctxu is None:
+                    continue
+                n_use += 1
+                kk = "%s:self.%s:%s" % (fi.key, attr, ctxu)
+                if dom == "str" and ctxu == "truth":
+                    r.fail("C12.effective", kk, "`self.%s` is normalised to the strings 'yes'/'no' and then tested for truthiness: 'no' is true as well, so the configured value 'no' is never acted on" % attr, fi.loc(x))
+                    continue
+                if dom == "bool" and ctxu == "cmp-str":
+                    r.fail("C12.effective", kk, "`self.%s` is normalised to a bool and then compared with a string: the comparison is false for every configured value" % attr, fi.loc(x))
+                    continue
+                # read before normalisation: region selection runs before _analyze
+                if fi.name == "_get_tokens_of_interest" and fi.key not in norm_funcs:
+                    r.fail("C12.effective", kk + ":raw", "`self.%s` is read in region selection, which runs before the normalisation in %s: the first analysis sees the raw configured value (e.g. a YAML boolean), every later one the normalised value" % (attr, ", ".join(sorted(k.split(':')[-1] for k in norm_funcs))), fi.loc(x))
+                    continue
+                if fi.key in norm_funcs and x.lineno < norm_funcs[fi.key] and not any(x is y for y in ast.walk([n for f2, _, n in lst if f2 is fi][0])):
+                    r.fail("C12.effective", kk + ":raw", "`self.%s` is used before it is normalised in the same function" % attr, fi.loc(x))
+                    continue
+                r.ok("C12.effective", kk, "use agrees with the normalised domain (%s)" % dom, sample=False)
+    r.extra["normalised_option_uses"] = n_use
+    r.ok("C12.effective", "normalised-options", "%d in-place yes/no normalisations, %d uses agree with their domain and none reads the raw value first" % (len(sites), n_use))
+
+
 _R = "vsg/rule.py"
 VARIANTS = [
+    Variant("C12", "'yes'/'no' option tested for truthiness", "fire",
+            [("vsg/rules/multiline_simple_structure.py", "            if rules_utils.is_single_line(oToi) and self.ignore_single_line == \"yes\":", "            if rules_utils.is_single_line(oToi) and self.ignore_single_line:")], rule="C12.effective"),
+    Variant("C12", "region selection reads the raw option before _analyze normalises it", "fire",
+            [("vsg/rules/multiline_structure.py", "        self.ignore_single_line = utils.convert_boolean_to_yes_no(self.ignore_single_line)\n        lReturn = []", "        lReturn = []")], rule="C12.effective"),
+    Variant("C12", "raw option compared with != 'no' in region selection", "fire",
+            [("vsg/rules/multiline_structure.py", "        self.ignore_single_line = utils.convert_boolean_to_yes_no(self.ignore_single_line)\n        lReturn = []", "        lReturn = []"),
+             ("vsg/rules/multiline_structure.py", "            if rules_utils.is_single_line(oToi) and self.ignore_single_line == \"yes\":", "            if rules_utils.is_single_line(oToi) and self.ignore_single_line != \"no\":")], rule="C12.effective"),
     Variant("C12", "group applied after rule-specific", "fire",
             [(_R, "        configure_group_rule_attributes(self, oConfig)\n        configure_rule_attributes(self, oConfig)", "        configure_rule_attributes(self, oConfig)\n        configure_group_rule_attributes(self, oConfig)")],
             rule="C12.order"),
